@@ -142,6 +142,21 @@ def fromPath (w : World) (n : Nat) (items : List Item) : Option (Except Err St) 
   | some (.error e) => some (.error e)
   | some (.ok s) => parseLoop w n s
 
+/-- `RailsConfig.from_content(colang_content, yaml_content)`: the YAML's `import_paths` joined first, the main content parsed
+    (outside the wrapper), its imports joined, `colang_files = [main.co]` already parsed; then `_load_imported_paths`, then the
+    parse loop for the files the imports brought in -/
+def contentSt (yml ips : List String) (main : Nat) : St :=
+  { importPaths := joinPaths (joinPaths [] yml) ips, imported := [], files := [main], parsed := 1 }
+
+def fromContent (w : World) (n : Nat) (yml : List String) (main : Nat) : Option (Except Err St) :=
+  match w.parse main with
+  | none => some (.error (.parse main))
+  | some ips =>
+    match loadIfAny w n (contentSt yml ips main) with
+    | none => none
+    | some (.error e) => some (.error e)
+    | some (.ok s) => parseLoop w n s
+
 /-- number of `.co` files an import path brings in -/
 def nFiles (w : World) (p : String) : Nat :=
   match w.resolve p with
